@@ -150,6 +150,9 @@ func newToken(ctx *map[string]any, functionType uint64) (kanzi.ByteTransform, er
 		return NewFSDCodecWithCtx(ctx)
 
 	case PACK_TYPE:
+		// The context is shared by the stages of a sequence: do not inherit
+		// the DNA-only mode from a DNA stage created earlier
+		(*ctx)["packOnlyDNA"] = false
 		return NewAliasCodecWithCtx(ctx)
 
 	case DNA_TYPE:
